@@ -44,6 +44,11 @@ func (e *Env) setWidgetHealth(name string, mode int) {
 
 func (e *Env) editParent(which int) string {
 	desc := ""
+	if which == 9 {
+		// the user deletes the parent; our finalizer keeps it around
+		e.W.Sim.ExtDelete(e.Scn.Cfg.ParentResource, e.Scn.ParentNS(), e.Scn.ParentName(), "")
+		return "delete-parent"
+	}
 	e.W.Sim.ExtUpdate(e.Scn.Cfg.ParentResource, e.Scn.ParentNS(), e.Scn.ParentName(), func(obj map[string]any) {
 		spec := obj["spec"].(map[string]any)
 		switch which {
